@@ -80,7 +80,7 @@ def default_resolution(ctx):
                             f"{[t for t, p in gs] or 'none'}): after set_new_initial_state the force law gets a new reference value, i.e. the restarted system is another model",
                             f"{ci.rel}:{st.lineno}")
     n_cb = sum(1 for ci in ctx.model.all_classes() if ci.rel.startswith("cardillo/force_laws/") and "assembler_callback" in ci.methods)
-    if n_cb < 3:
+    if n_cb < 2:
         raise AnalysisError(f"C24.R7: only {n_cb} force-law assembler callbacks found")
     if n == 0:
         # the callbacks exist but none derives a datum from the subsystem's initial state any more (e.g. the default moved into the subsystem)
